@@ -1,4 +1,5 @@
 import SaVerif.Model.Ident
+import SaVerif.Model.Literal
 /-!
 # M-STR / generated names — transcription of name truncation and naming conventions
 
@@ -11,6 +12,9 @@ import SaVerif.Model.Ident
 | `truncate_and_render_index_name / _constraint_name`: `max_x_name_length or max_identifier_length` | `effMax` |
 | `SQLCompiler._truncated_identifier` with `truncated_names` and `_truncated_counters` | `truncIdent`, `runIdents` |
 | `naming.ConventionDict.__getitem__` key dispatch for the documented tokens        | `parseKey`, `lookupKey` |
+| `SelectsRows._generate_columns_plus_names` (named columns; sql/selectable.py)     | `genStep`, `genNames` |
+| `prefix_anon_map.__missing__` (sql/_util_cy.py), `_anonymous_label.apply_map`      | `amGet`, `renderLabs` |
+| `BindParameter.__init__` / `_clone` / `_with_value` key handling, `TextClause.bindparams(name=value)` | `mkBind`, `cloneBind`, `deriveText` |
 | `convention % ConventionDict(...)` (only `%(key)s` and `%%` directives)           | `expandConv`         |
 
 Strings are `List Nat` (code points).
@@ -259,5 +263,119 @@ def expandConv (ci : ConstInfo) : Nat → Str → Except ConvErr Str
         | _ => .error .badFormat
       | _ => .error .badFormat
     else (expandConv ci fuel t).map (c :: ·)
+
+
+/-! ## labels of a SELECT's columns clause (`_generate_columns_plus_names`) -/
+
+/-- a named column; `id` stands for `hash(column)` (identity) -/
+structure Col where
+  id : Nat
+  tbl : Str
+  name : Str
+deriving DecidableEq, Repr
+
+/-- symbolic label: a plain name, the column's anonymous disambiguating label
+    (`_anon_name_label` / `_anon_tq_label`), or a "dedupe" label
+    (`_dedupe_anon_label_idx(idx)` / `_dedupe_anon_tq_label_idx(idx)`) -/
+inductive Lab
+  | plain (s : Str)
+  | anon (c : Col) (tq : Bool)
+  | dedupe (idx : Nat) (c : Col) (tq : Bool)
+deriving DecidableEq, Repr
+
+def tqLabel (c : Col) : Str := c.tbl ++ 95 :: c.name
+
+structure GState where
+  /-- the `names` dict: label ↦ column (first match wins = last assignment) -/
+  names : List (Lab × Col)
+  /-- `dedupe_hash` -/
+  dh : Nat
+deriving Repr
+
+/-- one iteration of the loop for a named column: (new state, label under which the column is
+    rendered: `required_label_name`, or the plain name when that is `None`) -/
+def genStep (tq anonForDupe : Bool) (st : GState) (c : Col) : GState × Lab :=
+  let eff := Lab.plain (if tq then tqLabel c else c.name)
+  match st.names.lookup eff with
+  | none => ({ st with names := (eff, c) :: st.names }, eff)
+  | some c0 =>
+    if c0.id != c.id then
+      let req := Lab.anon c tq
+      if anonForDupe && (st.names.lookup req).isSome then
+        ({ st with dh := st.dh + 1 }, Lab.dedupe st.dh c tq)
+      else ({ st with names := (req, c) :: st.names }, req)
+    else if anonForDupe then ({ st with dh := st.dh + 1 }, Lab.dedupe st.dh c tq)
+    else (st, eff)
+
+def genRun (tq anonForDupe : Bool) : GState → List Col → List Lab
+  | _, [] => []
+  | st, c :: rest =>
+    let (st', l) := genStep tq anonForDupe st c
+    l :: genRun tq anonForDupe st' rest
+
+/-- `_generate_columns_plus_names(anon_for_dupe_key)`; `dedupe_hash` starts at 1 -/
+def genNames (tq anonForDupe : Bool) (cols : List Col) : List Lab :=
+  genRun tq anonForDupe ⟨[], 1⟩ cols
+
+/-! ## `prefix_anon_map`: anonymous keys `"<ident> <derived>"` ↦ `derived_<counter>` -/
+
+structure AMap where
+  vals : List ((Nat × Str) × Str)
+  idx : List (Str × Nat)
+deriving Repr
+
+def AMap.empty : AMap := ⟨[], []⟩
+
+def amGet (m : AMap) (k : Nat × Str) : Str × AMap :=
+  match m.vals.lookup k with
+  | some v => (v, m)
+  | none =>
+    let c := (m.idx.lookup k.2).getD 1
+    let v := k.2 ++ 95 :: Literal.natStr c
+    (v, { vals := (k, v) :: m.vals, idx := (k.2, c + 1) :: m.idx })
+
+/-- anonymous key of a symbolic label: `_anon_label(seed, add_hash)` uses
+    `(hash << 16) | add_hash` and appends `_` to the seed for dedupe labels -/
+def labKey : Lab → Option (Nat × Str)
+  | .plain _ => none
+  | .anon c tq => some (c.id, if tq then tqLabel c else c.name)
+  | .dedupe i c tq => some (c.id * 65536 + i, (if tq then tqLabel c else c.name) ++ [95])
+
+def renderLabs : AMap → List Lab → List Str
+  | _, [] => []
+  | m, l :: rest =>
+    match l, labKey l with
+    | .plain s, _ => s :: renderLabs m rest
+    | _, some k => let (v, m') := amGet m k; v :: renderLabs m' rest
+    | _, none => [] :: renderLabs m rest
+
+/-! ## keys of bound parameters -/
+
+inductive BKey
+  | plain (name : Str)
+  /-- `_anonymous_label.safe_construct(id(self), name)` -/
+  | anon (id : Nat) (name : Str)
+deriving DecidableEq, Repr
+
+structure Bind where
+  id : Nat
+  origKey : Str
+  unique : Bool
+  key : BKey
+deriving Repr
+
+/-- `BindParameter(key, unique=…)` -/
+def mkBind (id : Nat) (key : Str) (unique : Bool) : Bind :=
+  { id := id, origKey := key, unique := unique, key := if unique then .anon id key else .plain key }
+
+/-- `_clone(maintain_key)`: a new object; a unique parameter gets a key of its own unless
+    `maintain_key` -/
+def cloneBind (b : Bind) (maintainKey : Bool) (freshId : Nat) : Bind :=
+  { b with id := freshId, key := if !maintainKey && b.unique then .anon freshId b.origKey else b.key }
+
+/-- statements derived from one `text()` template by `.bindparams(name=value)`:
+    each copies the template's parameter with `_with_value(value, maintain_key=flag)` -/
+def deriveText (tmpl : Bind) (maintainKey : Bool) (freshIds : List Nat) : List Bind :=
+  freshIds.map (cloneBind tmpl maintainKey)
 
 end SaVerif.Naming
